@@ -152,10 +152,12 @@ class StubVoter:
     def express(self, signal):
         k = self.c.choice(f"agent{self.i}", ["PERMIT", "EXECUTE", "BLOCK", "DEFER", "FAILURE", "UNKNOWN", "raise", "PERMIT+conf"])
         self.kind = k
+        self.reported = None
         if k == "raise":
             raise RuntimeError("agent crashed")
         if k == "PERMIT+conf":
-            return ActionProtein("PERMIT", {"confidence": self.c.real(f"pc{self.i}", 4, 0, 1)}, 1.0)
+            self.reported = self.c.real(f"pc{self.i}", 4, 0, 1)
+            return ActionProtein("PERMIT", {"confidence": self.reported}, 1.0)
         return ActionProtein(k, "because", 1.0)
 
 
@@ -188,9 +190,19 @@ def collect(n, strats):
         c.check("C06.f", r.total_votes == n and len(r.votes) == n and r.permit_votes == nP and r.block_votes == nB and r.abstain_votes == nA,
                 {"what": "reported counts differ from the ballots cast / abstaining or failed voters counted as support",
                  "reported": [r.total_votes, r.permit_votes, r.block_votes, r.abstain_votes], **info})
-        for v, k in zip(r.votes, kinds):
+        for v, k, prof in zip(r.votes, kinds, q.colony):
             if k == "raise":
                 c.check("C06.f-abstain", v.vote_type is VoteType.ABSTAIN and v.confidence == 0.0, {"what": "crashed agent not a zero-confidence abstention", **info})
+                continue
+            # the recorded ballot is the ballot the voter cast: its class, the confidence it reported (1.0 when it
+            # reported none) and weight x reliability.  With this, the aggregate harness's criterion over the
+            # recorded votes IS the criterion over the votes cast (composition of collect and aggregate).
+            want_t = {"PERMIT": VoteType.PERMIT, "EXECUTE": VoteType.PERMIT, "PERMIT+conf": VoteType.PERMIT,
+                      "BLOCK": VoteType.BLOCK, "DEFER": VoteType.DEFER}.get(k, VoteType.ABSTAIN)
+            want_c = prof.agent.reported if prof.agent.reported is not None else 1.0
+            c.check("C06.f-faithful", b_and(v.vote_type is want_t, eq(v.confidence, want_c), eq(v.weight, prof.weight * prof.reliability_score)),
+                    {"what": "recorded ballot differs from the ballot the voter cast (class / confidence / weight)", "voter": v.agent_id,
+                     "recorded_type": v.vote_type.name, **info})
         if nP == 0:
             c.check("C06.a", r.decision is not VoteType.PERMIT and not r.reached, {"what": "PERMIT without a single permit vote", **info})
         else:
@@ -213,7 +225,7 @@ HARNESSES = {
                   "clauses": ["C06.a", "C06.b", "C06.b-min", "C06.c", "C06.d", "C06.e", "C06.f"]},
     "collect": {"make": collect, "witness_every": 13,
                 "jobs": lambda tier: [{"n": n, "strats": STRATS} for n in ((1, 2, 3) if tier == "quick" else (1, 2, 3, 4))],
-                "clauses": ["C06.f", "C06.a", "C06.f-abstain"]},
+                "clauses": ["C06.f", "C06.a", "C06.f-abstain", "C06.f-faithful"]},
 }
 
 META = {
